@@ -1,13 +1,14 @@
 package compose
 
 import (
-	"sync"
-
 	"fmt"
 	"strings"
-	"verif/internal/kf"
+	"sync"
 
 	"pgregory.net/rapid"
+
+	"verif/internal/cat"
+	"verif/internal/kf"
 )
 
 // Size bounds of generated programs.
@@ -739,6 +740,11 @@ func (g *gstate) slotItem(sc gscope) ([]Node, []string) {
 func Gen(t *rapid.T) Case {
 	g := &gstate{t: t, cnt: map[byte]int{}}
 	var c Case
+
+	// storage dimension: ~40% of the cases present the file set through another store
+	if g.pct(40) {
+		c.Store = cat.Stores[g.intn(1, len(cat.Stores)-1)]
+	}
 
 	// page data: strings, bools, lists
 	var dScalars, dLists []string
